@@ -23,7 +23,10 @@ pub fn run(id: &str, tier: Tier, seed: u64) -> i32 {
         _ => "model_checking",
     };
     let ctx = Ctx::new(id, tier, seed, level);
-    match id {
+    // A panic of the harness itself (outside the panic trap around the code under test) is a machinery
+    // failure, never a verdict; but violations recorded before it are real observations and are still
+    // reported (finish() gives them precedence).
+    let r = std::panic::catch_unwind(std::panic::AssertUnwindSafe(|| match id {
         "C01" => c01::run(&ctx, false),
         "C02" => c01::run(&ctx, true),
         "C03" => c03::run(&ctx, false),
@@ -49,8 +52,12 @@ pub fn run(id: &str, tier: Tier, seed: u64) -> i32 {
         "C09" => acc::run(&ctx, true),
         _ => {
             eprintln!("unknown property {id}");
-            return 2;
+            std::process::exit(2);
         }
+    }));
+    if r.is_err() {
+        ctx.machinery("the harness panicked outside the panic trap (see the message above); enumeration incomplete".into());
+        ctx.ev.lock().unwrap().exhaustive = false;
     }
     ctx.finish()
 }
@@ -75,6 +82,8 @@ pub fn replay(path: &str) -> i32 {
     for round in 0..2 {
         let level = if id == "C05" || id == "C11" { "fault_enumeration" } else { "model_checking" };
         let ctx = Ctx::new(&format!("{id}-replay"), tier, 0, level);
+        // a fault (guard page, abort, allocation cap) during the replay is reported under the property's own id
+        crate::rt::set_property(&id);
         let single = match (id.as_str(), case.get("shape"), case.get("input")) {
             ("C03" | "C04", Some(sh), Some(inp)) => {
                 let shape: vmodel::shape::Shape = serde_json::from_value(sh.clone()).expect("shape");
